@@ -526,3 +526,6 @@ def run_shard(spec):
 def replay(doc):
     instr.install(["windpyutils.structures.sorted"])
     return seq.std_replay(__import__(MOD, fromlist=["x"]), doc)
+
+
+RULE += ' Also (wave 9): overwrites with an equal but different object that the caller goes on changing, Fraction / Decimal probes equal / unequal to stored keys.'
